@@ -676,6 +676,11 @@ class ComplexModelMeta(with_metaclass(Prepareable, type(ModelBase))):
     def __init__(self, cls_name, cls_bases, cls_dict):
         type_info = self._type_info
 
+        # every class keeps track of its own customized variants. without this,
+        # the Attributes of a subclass would see (and add to) the base class's
+        if self.__orig__ is None and not ('_variants' in vars(self.Attributes)):
+            self.Attributes._variants = None
+
         extends = self.__extends__
         if extends is not None and self.__orig__ is None:
             eattr = extends.Attributes
